@@ -130,11 +130,11 @@ SPECIALS = [np.nan, np.inf, -np.inf, 5e-324, -0.0, 2.2250738585072014e-308 / 4,
 def gen_model(seed, ndims=3, nlevels=None, nfields=None, base=None, bf=4, maxsz=None,
               origin=None, aniso=True, names=None, payload="random", nfiles=None,
               shuffle=True, full_refine=False, sizes=None, base_blocks=(2, 4), time=None,
-              maxfiles=4, refine_frac=None):
+              maxfiles=4, refine_frac=None, data_seed=None):
     """payload: random | special | affine | tagged | positive | ramp
     sizes: when given, 'segments' tiling with box extents from that list (e.g. [16,24])"""
     rng = random.Random(seed)
-    nprng = np.random.default_rng(seed)
+    nprng = np.random.default_rng(seed if data_seed is None else data_seed)
     m = Model()
     m.seed = seed
     m.ndims = ndims
@@ -277,6 +277,30 @@ def relayout(m, seed, mode="other"):
             lay["write_order"] = list(range(nb))
         else:
             raise ValueError(mode)
+    return c
+
+
+def drop_finest(m):
+    """copy of m without its finest level"""
+    c = m.copy()
+    c.nlevels = m.nlevels - 1
+    for a in ("dx", "grid_sizes", "boxes", "data", "layout", "steps"):
+        setattr(c, a, list(getattr(m, a))[:c.nlevels])
+    return c
+
+
+def permute_boxes(m, seed):
+    """copy of m with another box order at every level (same boxes, same data)"""
+    rng = random.Random(seed)
+    c = m.copy()
+    c.boxes, c.data = [], []
+    for lv in range(m.nlevels):
+        p = list(range(len(m.boxes[lv])))
+        rng.shuffle(p)
+        c.boxes.append([m.boxes[lv][i] for i in p])
+        c.data.append([m.data[lv][i] for i in p])
+        c.layout[lv] = {"file_of": [m.layout[lv]["file_of"][i] for i in p],
+                        "write_order": [p.index(i) for i in m.layout[lv]["write_order"]]}
     return c
 
 
